@@ -21,17 +21,17 @@ Print Assumptions C07_source_v1_claims_data_validate.
    run only.) *)
 Open Scope list_scope.
 Theorem C07_source_activation_validate : forall role_of now (cd : claims_data) (a : activation) (vr : list go_issue),
-  SrcValidateClaims.V2.ActivationClaims_Validate (at_subject a) (at_type a) (cd_exp cd) (cd_nbf cd) (at_issuer_account a) (is_acct role_of) now vr
+  SrcValidateClaims.V2.ActivationClaims_Validate (at_subject a) (at_type a) (at_issuer_account a) (cd_exp cd) (cd_nbf cd) (is_acct role_of) now vr
   = vr ++ map SrcValidateClaims.goi (v_activation_claims now role_of true cd a).
 Proof. exact vc_activation_validate. Qed.
 Print Assumptions C07_source_activation_validate.
 Theorem C07_source_auth_request_validate : forall role_of now (cd : claims_data) (k : string) (vr : list go_issue),
-  SrcValidateClaims.V2.AuthorizationRequestClaims_Validate (cd_exp cd) (cd_nbf cd) k (is_user role_of) now vr
+  SrcValidateClaims.V2.AuthorizationRequestClaims_Validate k (cd_exp cd) (cd_nbf cd) (is_user role_of) now vr
   = vr ++ map SrcValidateClaims.goi (v_auth_request now role_of cd k).
 Proof. exact vc_auth_request. Qed.
 Print Assumptions C07_source_auth_request_validate.
 Theorem C07_source_auth_response_validate : forall role_of now (cd : claims_data) (r : auth_response) (vr : list go_issue),
-  SrcValidateClaims.V2.AuthorizationResponseClaims_Validate (cd_aud cd) (cd_exp cd) (cd_nbf cd) (ar_error r) (ar_issuer_account r) (ar_jwt r) (cd_sub cd)
+  SrcValidateClaims.V2.AuthorizationResponseClaims_Validate (ar_error r) (ar_issuer_account r) (ar_jwt r) (cd_aud cd) (cd_exp cd) (cd_nbf cd) (cd_sub cd)
     (is_acct role_of) (is_server role_of) (is_user role_of) now vr
   = vr ++ map SrcValidateClaims.goi (v_auth_response now role_of cd r).
 Proof. exact vc_auth_response. Qed.
